@@ -54,6 +54,9 @@ fn variants(file: usize) -> Vec<&'static str> {
     }
 }
 
+/// marks a file that is neither open nor on disk
+const ABSENT: &str = "\u{0}absent";
+
 const SNIPPETS: [&str; 18] = [
     "", " ", "\n", "\r\n", "é", "😉", "€", "x", ";", "§", "let zz = {};\n", "'p num", "// c\n", "/* c */", "a.", "\"s\"", "`t: 1`", "# a: 1\n",
 ];
@@ -64,6 +67,9 @@ enum Step {
     Change(usize, Vec<(Option<(usize, usize)>, String)>),
     Close(usize),
     Request(usize, &'static str, usize),
+    /// a file that is not open disappears from the disk; the server learns nothing of it until the next
+    /// notification, here a full-text didChange of the open document `.1` that re-sends its current text
+    DeleteOnDisk(usize, usize),
     Checkpoint,
 }
 
@@ -76,6 +82,7 @@ fn gen_history(rng: &mut Rng, max_steps: usize) -> (Vec<usize>, Vec<Step>) {
     // disk variant per file
     let disk: Vec<usize> = (0..4).map(|f| if rng.chance(3, 4) { 0 } else { rng.below(variants(f).len()) }).collect();
     let mut open: Vec<Option<ClientDoc>> = vec![None; 4];
+    let mut deleted = [false; 4];
     let mut steps = Vec::new();
     let n = rng.range(4, max_steps);
     let mut burst = 0;
@@ -89,7 +96,7 @@ fn gen_history(rng: &mut Rng, max_steps: usize) -> (Vec<usize>, Vec<Step>) {
             burst = rng.range(2, 5);
         }
         match (&open[f], k) {
-            (None, 0..=59) => {
+            (None, 0..=59) if !deleted[f] => {
                 let text = if rng.chance(1, 2) { variants(f)[disk[f]] } else { *rng.pick(&variants(f)) };
                 open[f] = Some(ClientDoc::new(text));
                 steps.push(Step::Open(f, text.to_owned()));
@@ -102,6 +109,8 @@ fn gen_history(rng: &mut Rng, max_steps: usize) -> (Vec<usize>, Vec<Step>) {
                         let t = (*rng.pick(&variants(f))).to_owned();
                         doc = ClientDoc::new(&t);
                         changes.push((None, t));
+                    } else if rng.chance(1, 4) && same_width_swap(&mut doc, rng, &mut changes) {
+                        // done: a replacement of equal UTF-8 length that changes the line / UTF-16 layout
                     } else {
                         let b = doc.boundaries();
                         let mut s = *rng.pick(&b);
@@ -129,6 +138,11 @@ fn gen_history(rng: &mut Rng, max_steps: usize) -> (Vec<usize>, Vec<Step>) {
                 open[f] = None;
                 steps.push(Step::Close(f));
             }
+            (None, 60..=64) if f > 0 && !deleted[f] && open.iter().any(|d| d.is_some()) => {
+                deleted[f] = true;
+                let g = (0..4).find(|g| open[*g].is_some()).unwrap();
+                steps.push(Step::DeleteOnDisk(f, g));
+            }
             _ => {
                 if !in_burst {
                     let m = *rng.pick(&["textDocument/definition", "textDocument/references", "textDocument/prepareRename"]);
@@ -144,6 +158,34 @@ fn gen_history(rng: &mut Rng, max_steps: usize) -> (Vec<usize>, Vec<Step>) {
     (disk, steps)
 }
 
+/// Replaces one character by text of the same UTF-8 length and a different line or UTF-16 layout (blank <-> line
+/// break, a 4-byte character <-> four ASCII letters, ...): byte offsets behind it stay, positions move.
+fn same_width_swap(doc: &mut ClientDoc, rng: &mut Rng, changes: &mut Vec<(Option<(usize, usize)>, String)>) -> bool {
+    const SWAPS: [(&str, &str); 8] = [(" ", "\n"), ("\n", " "), ("😉", "abcd"), ("é", "ee"), ("€", "eur"), ("ee", "é"), ("  ", "é"), ("\t", "\n")];
+    let text = doc.text();
+    let mut sites: Vec<(usize, usize, &str)> = Vec::new();
+    for (from, to) in SWAPS {
+        let mut at = 0;
+        while let Some(i) = text[at..].find(from) {
+            let b = at + i;
+            // not a line break that is part of CRLF, not a blank inside a string or annotation (keeps most texts parsing alike)
+            let units = text[..b].encode_utf16().count();
+            let crlf = from == "\n" && b > 0 && text.as_bytes()[b - 1] == b'\r';
+            if !crlf {
+                sites.push((units, units + from.encode_utf16().count(), to));
+            }
+            at = b + from.len();
+        }
+    }
+    if sites.is_empty() {
+        return false;
+    }
+    let (s, e, to) = *rng.pick(&sites);
+    changes.push((Some((s, e)), to.to_owned()));
+    doc.replace(s, e, to);
+    true
+}
+
 type Obs = (BTreeMap<String, BTreeSet<String>>, Vec<String>);
 
 /// Probes a server: answers to definition / references / prepareRename / rename at fixed positions of
@@ -151,6 +193,9 @@ type Obs = (BTreeMap<String, BTreeSet<String>>, Vec<String>);
 fn observe(lsp: &mut Lsp, dir: &std::path::Path, texts: &[String]) -> Result<Obs, LspError> {
     let mut answers = Vec::new();
     for (f, name) in FILES.iter().enumerate() {
+        if texts[f] == ABSENT {
+            continue;
+        }
         let uri = file_uri(&dir.join(name));
         let doc = ClientDoc::new(&texts[f]);
         // identifier starts and a few fixed offsets
@@ -231,6 +276,7 @@ fn run_history(disk: &[usize], steps: &[Step], st: &mut Stats) -> Vec<Violation>
         docs: vec![None; 4],
         versions: vec![0; 4],
     };
+    let mut on_disk = [true; 4];
     let fail = |e: LspError, step: usize, what: &str| -> Vec<Violation> {
         let kind = match &e {
             LspError::Timeout => "no-answer",
@@ -287,23 +333,51 @@ fn run_history(disk: &[usize], steps: &[Step], st: &mut Stats) -> Vec<Violation>
                     Some(d) => d.clone(),
                     None => ClientDoc::new(variants(*f)[disk[*f]]),
                 };
+                if client.docs[*f].is_none() && !on_disk[*f] {
+                    continue;
+                }
                 let b = text.boundaries();
                 let o = b[*at % b.len()];
                 let p = text.position_of(o);
                 lsp.position_request(m, &uris[*f], p[0], p[1]).map(|_| ())
+            }
+            Step::DeleteOnDisk(f, g) => {
+                st.inc("step:delete-on-disk");
+                let _ = std::fs::remove_file(dir.path.join(FILES[*f]));
+                on_disk[*f] = false;
+                let text = client.docs[*g].as_ref().map(|d| d.text()).unwrap_or_default();
+                client.versions[*g] += 1;
+                lsp.did_change(&uris[*g], client.versions[*g], &[(None, text)])
             }
             Step::Checkpoint => {
                 st.inc("step:checkpoint");
                 let texts: Vec<String> = (0..4)
                     .map(|f| match &client.docs[f] {
                         Some(d) => d.text(),
-                        None => variants(f)[disk[f]].to_owned(),
+                        None if on_disk[f] => variants(f)[disk[f]].to_owned(),
+                        None => ABSENT.to_owned(),
                     })
                     .collect();
                 let h = match observe(&mut lsp, &dir.path, &texts) {
                     Ok(o) => o,
                     Err(e) => return fail(e, i, "probe"),
                 };
+                // independent of any server: the error the library locates in the current texts must have been
+                // published for the document it lives in, with the range of its span in the client's text
+                let src = crate::drive::pipeline::Sources {
+                    files: (0..4).filter(|f| texts[*f] != ABSENT).map(|f| (FILES[f].to_owned(), texts[f].clone())).collect(),
+                };
+                if let Some(exp) = super::common::error_location(&src) {
+                    st.inc("located_errors_checked");
+                    let uri_of = |file: &str| file_uri(&dir.path.join(file));
+                    let text_of = |file: &str| FILES.iter().position(|n| *n == file).map(|f| texts[f].clone());
+                    if let Some((class, detail)) = super::common::check_error_published(&lsp.diags, &uri_of, &text_of, &exp) {
+                        return vec![Violation::new(
+                            "the diagnostics published for the current texts do not locate the error where the compiler does",
+                            json!({"signature": format!("C15 {class}"), "step": i, "detail": detail}),
+                        )];
+                    }
+                }
                 // fresh server handed the client's final texts of the still-open documents
                 let mut fresh = match Lsp::start(&dir.path, None) {
                     Ok(l) => l,
